@@ -2,7 +2,9 @@
    Only statements; every proof is [exact <lemma>].
    Model: UV.Mcount.Model (libmcount's hook automaton) extended by UV.C17.Model (per-frame event area,
    save_trigger_read, save_watchpoint, pending-event queue, emission order of record_ret_stack /
-   record_trace_data, invalidation in mcount_exit_filter_record) - the code AS IT IS. *)
+   record_trace_data, invalidation in mcount_exit_filter_record) - the code AS IT IS, i.e. with the four
+   repairs 7cf042b, aa8baff, 35535f9, 197b449 that this property's machinery led to; the behaviour before
+   them is kept in [_legacy] definitions and refuted in the [_legacy_refuted] theorems. *)
 From Coq Require Import NArith ZArith List Bool.
 Import ListNotations.
 Require Import UV.Gen.Consts UV.Gen.C17Consts UV.Mcount.Model UV.Mcount.Forest UV.Mcount.PlainStep
@@ -39,11 +41,12 @@ Print Assumptions C17_nesting_kept_plain.
      (vi / wi the readings at its entry / exit hook, differences per field mod 2^64, events stamped
      with the ENTRY / EXIT time), a call that is not recorded contributes nothing.
    Guard [all_xtimed]: time stamps below 2^64, and a call with a read= trigger takes at least one clock
-   tick (see C17_zero_duration_refuted).  No watch points, no argument capture (see below). *)
-Theorem C17_read_diff : forall thr gd ms sh rd pm fv fd f,
-  all_xtimed thr gd ms sh rd pm fv fd f -> heights (map strip f) <= ms ->
-  xout (snd (xexec (xplain thr gd ms sh rd pm fv fd) (flat_map xflat f) xstart)) =
-  flat_map (xrecs (xplain thr gd ms sh rd pm fv fd) thr gd 0) f.
+   tick (see C17_zero_duration_refuted).  No watch points; argument capture is not part of the stream
+   model (with the repaired guard every event fits next to a small argument area, see C17_event_area_disjoint). *)
+Theorem C17_read_diff : forall thr gd ms sh rd pm f,
+  all_xtimed thr gd ms sh rd pm f -> heights (map strip f) <= ms ->
+  xout (snd (xexec (xplain thr gd ms sh rd pm) (flat_map xflat f) xstart)) =
+  flat_map (xrecs (xplain thr gd ms sh rd pm) thr gd 0) f.
 Proof. exact xrun_forest. Qed.
 Print Assumptions C17_read_diff.
 
@@ -58,8 +61,8 @@ Proof. exact read_diff_example. Qed.
 Print Assumptions C17_read_diff_example.
 
 (* read / diff events are dropped together with a call that is filtered out (time filter, depth limit) *)
-Theorem C17_read_dropped_with_call : forall thr gd ms sh rd pm fv fd k d,
-  recs thr gd d (strip k) = [] -> xrecs (xplain thr gd ms sh rd pm fv fd) thr gd d k = [].
+Theorem C17_read_dropped_with_call : forall thr gd ms sh rd pm k d,
+  recs thr gd d (strip k) = [] -> xrecs (xplain thr gd ms sh rd pm) thr gd d k = [].
 Proof. exact read_events_dropped_with_call. Qed.
 Print Assumptions C17_read_dropped_with_call.
 
@@ -70,7 +73,7 @@ Proof. exact read_event_times. Qed.
 Print Assumptions C17_read_event_times_inside.
 
 (* FALSE for a recorded call of zero duration (reachable with the `trace` trigger when two clock readings
-   coincide): every event of the frame is emitted by both passes *)
+   coincide): every event of the frame is emitted by both passes (known finding zero-duration-events-twice) *)
 Theorem C17_zero_duration_refuted :
   map (fun i => match i with IR r => (0, r_time r) | IE e => (e_id e, e_time e) end)
       (xout (snd (xexec zero_cfg [XEnter 0 100 (o_pf_only 5); XLeave 100 (o_pf_only 9)] xstart))) =
@@ -104,7 +107,7 @@ Theorem C17_watch_stamp : forall ts, 1 <= ts -> ts + 2 < W64 ->
 Proof. exact watch_stamp. Qed.
 Print Assumptions C17_watch_stamp.
 
-(* placement in the stream: FALSE when two hooks are only 1 ns apart (the +1 ns stamp of the thread's first
+(* placement in the stream (known finding watch-first-event-1ns): FALSE when two hooks are only 1 ns apart (the +1 ns stamp of the thread's first
    event and the -1 ns stamp of the next one cross): an event is then written inside a call that starts
    after the event's time stamp; with >= 2 ns the same history is placed correctly (stream-level placement
    of watch events is otherwise covered by the tie's [ok_times] / watch checkers, not by a theorem) *)
@@ -150,94 +153,95 @@ Theorem C17_watch_limit : forall C f pos o X, full (pend X) = true -> wp_cpu C =
 Proof. exact watch_limit. Qed.
 Print Assumptions C17_watch_limit.
 
-(* -W var:NAME, one thread: the same statement under the exact guard that the variable never returns to
-   the value it had at the thread's first hook ... *)
-Theorem C17_watch_var_iff_changed_partial : forall C v0, fix_var C = false -> wp_var C = true -> forall l X, pend X = [] ->
-  v_copy X = Some v0 -> g_init X = false -> no_return v0 (map (fun p => o_var (snd p)) l) ->
-  var_values (wrun C l X) = nchanges_from v0 (map (fun p => o_var (snd p)) l).
-Proof. exact var_run. Qed.
-Print Assumptions C17_watch_var_iff_changed_partial.
-
-(* ... and FALSE without it (genuine defect: save_watchpoint compares with the thread's copy made at its
-   first hook and never updates it): 3 -> 4 -> 3 reports only the first change *)
-Theorem C17_watch_var_refuted :
-  var_values (wrun var_cfg [(100, ov 3); (110, ov 4); (120, ov 3)] var_x0) = [4] /\
-  nchanges_from 3 [3; 4; 3] = [4; 3].
-Proof. exact var_watch_refuted. Qed.
-Print Assumptions C17_watch_var_refuted.
-
-(* for the code with proposed-fixes/C17-2.diff (model variant fix_var = true: the thread's copy follows
-   the observations) the statement holds for EVERY sequence of values *)
-Theorem C17_watch_var_iff_changed_fixed : forall C, fix_var C = true -> wp_var C = true -> forall l X v0,
+(* -W var:NAME, one thread: for EVERY sequence of values, with the queue drained between the hooks, the
+   events generated are exactly the changes of the value w.r.t. the thread's previous observation
+   (v0 = the copy made at the thread's first hook) *)
+Theorem C17_watch_var_iff_changed : forall C, wp_var C = true -> forall l X v0,
   pend X = [] -> v_copy X = Some v0 -> (g_init X = true -> g_val X = v0) ->
   var_values (wrun C l X) = nchanges_from v0 (map (fun p => o_var (snd p)) l).
-Proof. exact var_run_fixed. Qed.
-Print Assumptions C17_watch_var_iff_changed_fixed.
+Proof. exact var_run. Qed.
+Print Assumptions C17_watch_var_iff_changed.
 
-(* ------------------------------------------------------------------ dropped with the call: watch events *)
-(* FALSE (genuine defect): the watch events queued by a call that the time filter then drops stay in the
-   queue (the test `event.idx < mtdp->idx` runs before idx is decremented, so it keeps the exiting
-   frame's own events) and are written with the next record: f1 is absent, its two events are present *)
-Theorem C17_watch_dropped_with_call_refuted :
+Theorem C17_watch_var_example :
+  var_values (wrun var_cfg [(100, ov 3); (110, ov 4); (120, ov 3)] var_x0) = [4; 3].
+Proof. exact var_watch_example. Qed.
+Print Assumptions C17_watch_var_example.
+
+(* before aa8baff the thread's copy was never updated: 3 -> 4 -> 3 reported only the first change *)
+Theorem C17_watch_var_legacy_refuted :
+  var_values (wrun_legacy var_cfg [(100, ov 3); (110, ov 4); (120, ov 3)] var_x0) = [4] /\
+  nchanges_from 3 [3; 4; 3] = [4; 3].
+Proof. exact var_watch_legacy_refuted. Qed.
+Print Assumptions C17_watch_var_legacy_refuted.
+
+(* ------------------------------------------------------------------ dropped with the call: all events *)
+(* Plain base configuration (-t / -D / --max-stack, both shapes), ANY read= triggers, -W cpu and/or -W var,
+   any observations: a complete call that is not recorded (time filter or depth limit - then none of its
+   callees is recorded either), started in any state whose pending events belong to open frames, leaves
+   the stream, the pending-event queue, the per-frame event areas and the shadow stack exactly as it
+   found them: everything its hooks (and its callees' hooks) queued is removed by the invalidation. *)
+Theorem C17_watch_dropped_with_call : forall thr gd ms sh rd pm wc wv k, timed (strip k) -> forall s hk X d,
+  recs thr gd d (strip k) = [] ->
+  fc s = fcd d -> enabled s = true -> ridx s = d -> idx s + height (strip k) <= ms ->
+  Forall (fun a => a_idx a < idx s) (pend X) ->
+  exists s' X', xexec (xplainw thr gd ms sh rd pm wc wv) (xflat k) (((s, hk) : dstate), X) = (((s', hk) : dstate), X') /\
+                pend X' = pend X /\ xout X' = xout X /\ xs X' = xs X /\ stack s' = stack s /\ out s' = out s.
+Proof. exact dropped_with_call. Qed.
+Print Assumptions C17_watch_dropped_with_call.
+
+(* non-vacuity: f1 (10 ns, -t 50 ns) and the cpu changes seen at its entry and exit are absent *)
+Theorem C17_watch_dropped_with_call_example :
   xout (snd (xexec drop_cfg drop_run xstart)) =
-  [IR {| r_time := 100; r_type := ENTRY; r_depth := 0; r_addr := 0 |}; wcpu 101 3; wcpu 109 4; wcpu 119 5;
-   IR {| r_time := 130; r_type := ENTRY; r_depth := 1; r_addr := 512 |};
-   IR {| r_time := 190; r_type := EXIT; r_depth := 1; r_addr := 512 |};
-   IR {| r_time := 200; r_type := EXIT; r_depth := 0; r_addr := 0 |}].
-Proof. exact watch_dropped_with_call_refuted. Qed.
-Print Assumptions C17_watch_dropped_with_call_refuted.
-
-Theorem C17_invalidate_keeps_own : forall e n,
-  invalidate (n + 1) [{| a_ev := e; a_idx := n |}] = [{| a_ev := e; a_idx := n |}].
-Proof. exact invalidate_keeps_own. Qed.
-Print Assumptions C17_invalidate_keeps_own.
-
-(* for the code with proposed-fixes/C17-3.diff (model variant fix_drop = true): the same history records
-   neither f1 nor its events; and in general, on a queue ordered by frame index, the invalidation at the exit
-   of frame n keeps exactly the events of the frames below n *)
-Theorem C17_watch_dropped_with_call_fixed :
-  xout (snd (xexec drop_cfg_fixed drop_run xstart)) =
   [IR {| r_time := 100; r_type := ENTRY; r_depth := 0; r_addr := 0 |}; wcpu 101 3;
    IR {| r_time := 130; r_type := ENTRY; r_depth := 1; r_addr := 512 |};
    IR {| r_time := 190; r_type := EXIT; r_depth := 1; r_addr := 512 |};
    IR {| r_time := 200; r_type := EXIT; r_depth := 0; r_addr := 0 |}].
-Proof. exact watch_dropped_with_call_fixed. Qed.
-Print Assumptions C17_watch_dropped_with_call_fixed.
+Proof. exact watch_dropped_with_call_example. Qed.
+Print Assumptions C17_watch_dropped_with_call_example.
 
+(* on a queue ordered by frame index the invalidation at the exit of frame n keeps exactly the events of
+   the frames below n *)
 Theorem C17_invalidate_sorted : forall m p, sorted_idx p ->
   invalidate m p = filter (fun x => a_idx x <? m) p.
 Proof. exact invalidate_sorted. Qed.
 Print Assumptions C17_invalidate_sorted.
 
+(* before 35535f9 the test used mtdp->idx = n + 1 at the exit of frame n: the frame's own events passed *)
+Theorem C17_watch_dropped_with_call_legacy_refuted : forall e n,
+  invalidate (n + 1) [{| a_ev := e; a_idx := n |}] = [{| a_ev := e; a_idx := n |}] /\
+  invalidate n [{| a_ev := e; a_idx := n |}] = [].
+Proof. exact invalidate_legacy_keeps_own. Qed.
+Print Assumptions C17_watch_dropped_with_call_legacy_refuted.
+
 (* ------------------------------------------------------------------ events and arguments in one frame buffer *)
-(* the guard of save_trigger_read would keep events and argument bytes apart if the word it adds to the
-   buffer start were the size of the argument area ... *)
-Theorem C17_guard_sound_if_word_right : forall b dsz, w_at_ptr b = 4 + asz b ->
-  guard_stores b dsz = true -> disjoint_after b dsz = true.
-Proof. exact guard_sound_if_word_right. Qed.
-Print Assumptions C17_guard_sound_if_word_right.
+(* save_trigger_read stores an event only where it does not overlap the argument bytes of the frame
+   (size word included), and stores it whenever it fits *)
+Theorem C17_event_area_disjoint : forall b dsz, guard_stores b dsz = true -> disjoint_after b dsz = true.
+Proof. exact event_area_disjoint. Qed.
+Print Assumptions C17_event_area_disjoint.
 
-(* ... but it reads that word through the event pointer (genuine defect).  FALSE: disjointness ... *)
-Theorem C17_event_area_disjoint_refuted :
+Theorem C17_guard_exact : forall b dsz, guard_stores b dsz = room_for b dsz.
+Proof. exact guard_exact. Qed.
+Print Assumptions C17_guard_exact.
+
+(* before 7cf042b the size word was read through the event pointer: events could overwrite argument bytes ... *)
+Theorem C17_event_area_disjoint_legacy_refuted :
   let b := {| has_args := true; asz := 1000; event_idx := C17_ARGBUF_SIZE; w_at_ptr := 0 |} in
-  guard_stores b SIZEOF_PAGE_FAULT = true /\ disjoint_after b SIZEOF_PAGE_FAULT = false.
-Proof. exact event_area_disjoint_refuted. Qed.
-Print Assumptions C17_event_area_disjoint_refuted.
+  guard_stores_legacy b SIZEOF_PAGE_FAULT = true /\ disjoint_after b SIZEOF_PAGE_FAULT = false /\
+  guard_stores b SIZEOF_PAGE_FAULT = false.
+Proof. exact event_area_disjoint_legacy_refuted. Qed.
+Print Assumptions C17_event_area_disjoint_legacy_refuted.
 
-(* ... and FALSE: "a diff event is stored whenever it fits" - with arguments or a return value captured in
-   the frame the word is the low half of the read event's time stamp *)
-Theorem C17_diff_lost_with_args_refuted :
+(* ... and the diff event of a function with captured arguments was always rejected *)
+Theorem C17_diff_lost_with_args_legacy_refuted :
   let b := {| has_args := true; asz := 8; event_idx := C17_ARGBUF_SIZE - (EVTBUF_HDR + SIZEOF_PAGE_FAULT);
               w_at_ptr := 5000 |} in
-  room_for b SIZEOF_PAGE_FAULT = true /\ guard_stores b SIZEOF_PAGE_FAULT = false.
-Proof. exact diff_event_lost_with_args_refuted. Qed.
-Print Assumptions C17_diff_lost_with_args_refuted.
+  room_for b SIZEOF_PAGE_FAULT = true /\ guard_stores_legacy b SIZEOF_PAGE_FAULT = false /\
+  guard_stores b SIZEOF_PAGE_FAULT = true.
+Proof. exact diff_event_lost_with_args_legacy_refuted. Qed.
+Print Assumptions C17_diff_lost_with_args_legacy_refuted.
 
-(* without argument / return-value capture the guard is exact, and all events of a frame always fit *)
-Theorem C17_guard_exact_without_args : forall b dsz, has_args b = false -> guard_stores b dsz = room_for b dsz.
-Proof. exact guard_exact_without_args. Qed.
-Print Assumptions C17_guard_exact_without_args.
-
+(* all events of a frame (5 kinds, read + diff) always fit into the buffer *)
 Theorem C17_all_events_fit :
   2 * ((EVTBUF_HDR + SIZEOF_PROC_STATM) + (EVTBUF_HDR + SIZEOF_PAGE_FAULT) + (EVTBUF_HDR + SIZEOF_PMU_CYCLE) +
        (EVTBUF_HDR + SIZEOF_PMU_CACHE) + (EVTBUF_HDR + SIZEOF_PMU_BRANCH)) <= C17_ARGBUF_SIZE.
